@@ -169,6 +169,33 @@ def run_random_case(F, data: bytes, rng, ctx, case) -> None:
         ctx.count("windows_compared")
         if got != want:
             ctx.violation("C03:compute_checksum", f"compute_checksum(len {len(data)}, {start}, {length}) = {got!r}, model {want:#06x}", dict(case, start=start, length=length))
+    # call sequences: compute_checksum is a function of (data, start, length) whatever was computed - or failed - before
+    if len(data) >= 2:
+        start = rng.randint(0, len(data) - 1)
+        full_len = len(data) - start
+        seq = [(start, full_len), (start, rng.randint(0, full_len - 1) if full_len > 0 else 0), (start, full_len), (start, 0),
+               (rng.randint(0, len(data)), None)]
+        # a call that fails part-way (window past the end, or a non-octet element), then valid calls again
+        try:
+            F.compute_checksum(data, start, full_len + rng.randint(1, 5))
+        except Exception:
+            ctx.count("compute_checksum_calls_that_raised")
+        for st, ln in seq:
+            if ln is None:
+                ln = rng.randint(0, len(data) - st)
+            got = F.compute_checksum(data, st, ln)
+            want = fcs16.fcs(data[st : st + ln])
+            ctx.count("windows_compared_in_sequences")
+            if got != want:
+                ctx.violation("C03:compute_checksum:depends-on-earlier-calls", f"compute_checksum(len {len(data)}, {st}, {ln}) = {got!r} after other calls on the same data, model {want:#06x}", dict(case, start=st, length=ln))
+                break
+        try:
+            F.compute_checksum(list(data[:3]) + ["x"], 0, 4)
+        except Exception:
+            ctx.count("compute_checksum_calls_that_raised")
+        got = F.compute_checksum(data, 0, len(data))
+        if got != fcs16.fcs(data):
+            ctx.violation("C03:compute_checksum:depends-on-earlier-calls", f"compute_checksum of the whole string after a failed call = {got!r}, model {fcs16.fcs(data):#06x}", case)
     # trailers: correct, one bit flipped, octets swapped
     good_tr = fcs16.trailer(data)
     variants = [("correct", good_tr)]
